@@ -137,6 +137,9 @@ impl FieldAttributeBuilder {
                             v_meta.push(meta);
                         }
                     }
+                } else {
+                    // `#[educe]` and `#[educe = ".."]` carry nothing a handler reads: refused here as on the type itself
+                    return Err(panic::educe_format_incorrect(path.get_ident().unwrap()));
                 }
             }
         }
